@@ -222,6 +222,8 @@ def run_family(ctx, prefix):
         ctx.violation(sig, what, {"family": "meshpool", "history": {"nslots": h["nslots"], "steps": h["steps"][:f["i"] + 1]},
                                   "expected": f["exp"]})
     ctx.extra["flags_for_other_properties"] = other
+    if ctx.tier == "thorough":
+        selftest(ctx, vh, hists)
     missing = [op for op in ALL_OPS if ctx.extra.get("steps_judged_by_value", {}).get(op, 0) == 0]
     ctx.extra["ops_never_judged_by_value"] = missing
     if missing:
@@ -231,6 +233,45 @@ def run_family(ctx, prefix):
         "values are judged on the 1/1024 lattice; raw float bits only through a fingerprint in frame checks",
         "TLC evaluates MeshValue/MeshOps correctly",
     ]
+
+
+def selftest(ctx, vh, hists):
+    """Demonstrate the binding: corrupt logged fields of an accepted trace; TLC must reject exactly those lines."""
+    d = ctx.scratch("selftest")
+    hp = os.path.join(d, "hist.ndjson")
+    pick = [h for h in hists if len(h["steps"]) >= 3 and h["steps"][1]["op"] in ("Translate", "Scale", "Rotate", "Append", "FlipWinding")][:1]
+    if not pick:
+        raise core.Infra("self-test: no suitable history")
+    core.write_ndjson(hp, pick)
+    tp = os.path.join(d, "trace.ndjson")
+    core.run_vh(vh, ["mesh-exec", "-in", hp, "-out", tp])
+    rows = core.read_ndjson(tp)
+    # (a) a value of the step-1 result is changed in the log  -> C03.Result at that line
+    r1 = rows[2]
+    if not r1["res"]["attrs"] or r1["step"]["dst"] == 0:
+        raise core.Infra("self-test: unsuitable trace")
+    r1["res"]["attrs"][0]["data"][0][0] += 1024
+    for c in r1["chg"]:
+        if c["s"] == r1["step"]["dst"]:
+            c["m"] = r1["res"]
+    # (b) a slot that is not the destination of step 2 is reported as changed -> C01.Frame at that line
+    r2 = rows[3]
+    other = [c for c in rows[1]["chg"]][0]
+    if other["s"] != r2["step"]["dst"]:
+        fake = json.loads(json.dumps(other))
+        fake["m"]["fp"] = [1, 2, 3]
+        r2["chg"] = [c for c in r2["chg"] if c["s"] != fake["s"]] + [fake]
+        expect_frame = True
+    else:
+        expect_frame = False
+    core.write_ndjson(tp, rows)
+    r = core.run_tlc(os.path.join(d, "v"), "TraceMeshPool", "TraceMeshPool.cfg", files=[(tp, "trace.ndjson")], timeout=600)
+    got = {(v["l"], p) for v in r.values if isinstance(v, dict) and "bad" in v for p in v["bad"]}
+    if (3, "C03.Result") not in got:
+        raise core.Infra("self-test: corrupted result value was not rejected (%s)" % sorted(got))
+    if expect_frame and (4, "C01.Frame") not in got:
+        raise core.Infra("self-test: fabricated change of a non-destination slot was not rejected (%s)" % sorted(got))
+    ctx.extra["selftest_corruptions_rejected"] = 2 if expect_frame else 1
 
 
 def replay_family(ctx, prefix, path):
